@@ -76,6 +76,10 @@ def evalTmpl (t : J) (env : Bs) : Except LErr J :=
          | none => .error "script"
        | _, _ => .error "script")
     | some (.str "echo") => .ok (.obj env)
+    -- `event.verifmark = 1; Env.bindings`: the script marks ITS OWN copy of the event (every action execution gets one)
+    | some (.str "mutevent") =>
+      .ok (.obj (env.map (fun kv => if kv.1 == "event" then
+        (match kv.2 with | .obj e => (kv.1, J.obj (Obj.set e "verifmark" (.num 1))) | _ => kv) else kv)))
     -- `Env.AddFact(id, fact)`: the value is the id; the effect on the location is applied by the caller of the
     -- event model (Driver/Loc.lean), which turns a refused add into a failed action
     | some (.str "addfact") => .ok ((Obj.get? o "id").getD .null)
